@@ -1565,6 +1565,13 @@ class AInterp(Interp):
             if isinstance(other, K) and other.v is None:
                 return recv
             return Opq("combine_first", [recv, other])
+        if isinstance(recv, Nd) and meth in ("to_numpy", "astype"):
+            dt = kwargs.get("dtype", args[0] if (args and meth == "astype") else (args[0] if args else None))
+            if dt is not None:
+                # element values are outside the index-map domain; the cast is recorded for the rules
+                if not hasattr(self, "casts"):
+                    self.casts = []
+                self.casts.append((e, recv, dt))
         if isinstance(recv, Nd):
             if meth in ("to_numpy", "copy", "astype") and not isinstance(recv, Buf):
                 return recv
